@@ -204,12 +204,13 @@ def handlePP : List String → String
     | _, _, _, _, _, _ => "bad-op"
   | _ => "bad-op"
 
-def handle : List String → String
-  | "cf" :: rest => handleCF rest
-  | "pp" :: rest => handlePP rest
-  | ["req", srvT, cih, strict, hT, omitF, remote, tls, host, hdrs, tbl, failsF, hopsF, modeF, lbF, rtF] =>
+/-- `req …` and `inc …` (same fields; `inc` asks for /outer whose template includes /inner through
+    templates' httpInclude: the answer is what the virtual sub-request is attributed) -/
+def handleReq (inc : Bool) : List String → String
+  | [srvT, cih, strict, hT, omitF, remote, tls, host, hdrs, tbl, failsF, hopsF, modeF, lbF, rtF] =>
     -- `dyn:` = the same ranges answered by a request-scoped IPRangeSource (not among the probe's matcher ranges)
     let dyn := srvT.startsWith "dyn:"
+    if inc && dyn then "bad-op" else
     let srvT := if dyn then (srvT.drop 4).toString else srvT
     let srv : Option (Option Nat) := if srvT == "nil" then (if dyn then none else some none) else (parseRanges srvT).map some
     let ci : Option (Option (List Bytes)) := if cih == "nil" then some none else (parseHexList cih).map some
@@ -244,6 +245,10 @@ def handle : List String → String
           (((idxList 0 (if dyn then 0 else ns)).zip (rangeExprs srvT) ++ (idxList 1 nh).zip (rangeExprs hT)).map
             (fun pe => ⟨pe.1, (ipAndZone pe.2).2⟩)) ++
           (fixedZones.zipIdx.map (fun zi => ⟨⟨2, zi.2⟩, zi.1⟩))
+        if inc then
+          (fun (o : Out) => "inner=" ++ Hex.encode (o.clientIP ++ [124] ++ asciiBytes (if o.trusted then "true" else "false")) ++ " status=200")
+            (serveInclude (tableNet table) cfg ⟨remote, tls, host, early⟩ wire)
+        else
         showOut (serve (tableNet table) cfg ⟨remote, tls, host, early⟩ wire)
           (serveConsumers (tableNet table) cfg mranges ⟨remote, tls, host, early⟩ wire)
           -- lb: 0 default policy | 1 client_ip_hash (oracle only) | 2 cookie: Secure attribute of the sticky cookie
@@ -258,7 +263,17 @@ def handle : List String → String
     | _, _, _, _, _, _, _, _, _ => "bad-op"
   | _ => "bad-op"
 
+def handle : List String → String
+  | "cf" :: rest => handleCF rest
+  | "pp" :: rest => handlePP rest
+  | "req" :: rest => handleReq false rest
+  | "inc" :: rest => handleReq true rest
+  | _ => "bad-op"
+
 /-- counter-example lines replayed on the implementation on every run (see Witness.lean) -/
-def witnessLines : List String := []   -- the tree violates no clause of C10 (Witness.lean holds model facts about old behaviour)
+def witnessLines : List String :=
+  [-- Witness.include_attribution_full_fails: trusted_proxies 127.0.0.1, outer request for /outer from the untrusted
+   -- 8.8.8.8:1 with `X-Forwarded-For: 6.6.6.6`; the template includes /inner through httpInclude
+   "C10 inc 127.0.0.1 nil 0 . 000 382e382e382e383a31 0 61 582d466f727761726465642d466f72:362e362e362e36 3132372e302e302e31:3132372e302e302e31:1:-:0000;32372e302e302e31:32372e302e302e31:0:-:0000;362e362e362e36:362e362e362e36:0:-:0000;372e302e302e31:372e302e302e31:0:-:0000;382e382e382e38:382e382e382e38:0:-:0000 0 0 0 0 01"]
 
 end CaddyModel.C10
